@@ -169,7 +169,7 @@ def run_shards(header, cases, checker, tag, shard=250, timeout=900, post=""):
                 "| k => (i, k) :: bad_ (S i) r end end." % checker,
                 "Set Printing Width 1000000.",
                 "Eval vm_compute in bad_ 0 cases.",
-                "Eval vm_compute in (length (bad_ 0 cases) + 1000000)%nat.", post]
+                "Eval vm_compute in length (bad_ 0 cases).", post]
         (tmp / (name + ".v")).write_text("\n".join(body))
         files.append((k, name))
     procs, bad, errors = [], {}, []
@@ -192,7 +192,7 @@ def run_shards(header, cases, checker, tag, shard=250, timeout=900, post=""):
             if not m:
                 errors.append("%s: unparsable %s" % (name, out[-500:])); continue
             pairs = re.findall(r"\(\s*(\d+)(?:%nat)?\s*,\s*(\d+)(?:%nat)?\s*\)", m.group(1))
-            mc = re.search(r"=\s*1(\d{6})(?:%nat)?\s*:\s*nat", out)
+            mc = re.search(r"=\s*(\d+)(?:%nat)?\s*:\s*nat\b", out[m.end():])
             if not mc or int(mc.group(1)) != len(pairs):   # never lose a failing case to the pretty-printer
                 errors.append("%s: %s failing cases counted by Coq, %d parsed" % (name, mc.group(1) if mc else "?", len(pairs))); continue
             for i, code in pairs:
